@@ -9,6 +9,7 @@
   a fresh read none; every explicit Refresh delivers exactly one result; no channel without a refresh policy.
 -/
 import OtterVerif.Props.C10
+import OtterVerif.Gen.NodePred
 
 namespace OtterVerif.Props.C11
 open OtterVerif OtterVerif.Spec
@@ -68,5 +69,39 @@ theorem c11_ref_writing_resets (c : Cfg) (now : Int) (k : Nat) (o : Option Entry
 def e1 : Entry := { val := 7, weight := 1, exp := 500, ref := 90 }
 def s1 : State := { now := 100, m := [(1, e1)], inflight := [(1, 5)] }
 example : e1.staleAt 100 = true ∧ s1.live 1 = some e1 := by decide
+
+/-! ### When a read starts a reload: the cache's own predicate, regenerated from cache_impl.go on every run (`Gen.NodePred.isStale`) -/
+
+/-- a read starts a reload exactly when refreshing is configured, the entry's refresh time has been reached (`<=`, signed
+    comparison on the 64-bit clock) and the node is still the live one -/
+theorem c11_isStale_iff (withRefresh alive : Bool) (refAt now : BitVec 64) :
+    Gen.NodePred.isStale withRefresh refAt alive now = true ↔ (withRefresh = true ∧ refAt.toInt ≤ now.toInt ∧ alive = true) := by
+  unfold Gen.NodePred.isStale
+  simp only [Bool.and_eq_true, BitVec.sle, decide_eq_true_eq]
+  constructor
+  · rintro ⟨⟨h1, h2⟩, h3⟩; exact ⟨h1, h2, h3⟩
+  · rintro ⟨h1, h2, h3⟩; exact ⟨⟨h1, h2⟩, h3⟩
+
+/-- **a node that a concurrent writer has retired never starts a reload** (finding F16: the old test `!IsFresh` was true for
+    every retired node, whatever its refresh time) -/
+theorem c11_retired_node_starts_no_reload (withRefresh : Bool) (refAt now : BitVec 64) :
+    Gen.NodePred.isStale withRefresh refAt false now = false := by
+  unfold Gen.NodePred.isStale
+  simp
+
+/-- a fresh entry (refresh time still ahead) never starts a reload: "reads of fresh entries trigger nothing" -/
+theorem c11_fresh_entry_starts_no_reload (withRefresh alive : Bool) (refAt now : BitVec 64) (h : now.toInt < refAt.toInt) :
+    Gen.NodePred.isStale withRefresh refAt alive now = false := by
+  cases hs : Gen.NodePred.isStale withRefresh refAt alive now with
+  | false => rfl
+  | true => have := (c11_isStale_iff withRefresh alive refAt now).mp hs; omega
+
+/-- without a refresh policy nothing is ever reloaded on a read -/
+theorem c11_no_refresh_policy_no_reload (alive : Bool) (refAt now : BitVec 64) :
+    Gen.NodePred.isStale false refAt alive now = false := by
+  unfold Gen.NodePred.isStale
+  simp
+
+example : Gen.NodePred.isStale true 5#64 true 5#64 = true ∧ Gen.NodePred.isStale true 6#64 true 5#64 = false := by decide
 
 end OtterVerif.Props.C11
